@@ -37,6 +37,9 @@ pub enum HostFault {
     /// honest instance's, only the selectors the instance carries differ.  The compiled description
     /// is what an instance is proved against, so the prover must return a proof.
     SelectorTwin { prog: std::sync::Arc<crate::program::Program>, at: usize, value: BlsScalar },
+    /// The instance allocates witnesses it never wires (many more than four per row): the rows,
+    /// their wires and the public inputs are the honest ones, so the prover must return a proof.
+    UnwiredWitnesses { prog: std::sync::Arc<crate::program::Program>, extra: usize },
 }
 
 impl HostFault {
@@ -45,12 +48,13 @@ impl HostFault {
             HostFault::Witness(_, f) => f.kind(),
             HostFault::Twin(..) => "witness.rewired_twin",
             HostFault::SelectorTwin { .. } => "instance.other_selectors_same_wire_values",
+            HostFault::UnwiredWitnesses { .. } => "instance.many_unwired_witnesses",
         }
     }
     /// The program the faulty host synthesises the instance from.
     pub fn program<'a>(&'a self, sc: &'a Scenario) -> &'a std::sync::Arc<crate::program::Program> {
         match self {
-            HostFault::SelectorTwin { prog, .. } => prog,
+            HostFault::SelectorTwin { prog, .. } | HostFault::UnwiredWitnesses { prog, .. } => prog,
             _ => &sc.prog,
         }
     }
@@ -62,6 +66,7 @@ impl HostFault {
                 crate::program::set_twin(Some((*at, *d)));
             }
             HostFault::SelectorTwin { at, value, .. } => wfault::arm(*at, WFault::Random(*value)),
+            HostFault::UnwiredWitnesses { .. } => wfault::arm_counter(),
         }
     }
     pub fn disarm() -> wfault::Fired {
@@ -111,7 +116,7 @@ pub fn faulted_request(ctx: &mut RunCtx, sc: &Scenario, dep: &Deployment, fault:
     };
     if fired.fired {
         ctx.st.fault(fault.kind());
-    } else if matches!(fault, HostFault::Twin(..) | HostFault::SelectorTwin { .. }) {
+    } else if matches!(fault, HostFault::Twin(..) | HostFault::SelectorTwin { .. } | HostFault::UnwiredWitnesses { .. }) {
         ctx.st.fault(fault.kind());
     } else {
         ctx.st.probe("fault_instant_beyond_last_allocation");
@@ -136,7 +141,7 @@ pub fn faulted_request(ctx: &mut RunCtx, sc: &Scenario, dep: &Deployment, fault:
     ctx.note("row_evaluator", J::s(format!("{:?}", verdict)));
     ctx.st.log(digest(format!("{:?}|{}", verdict, res.is_ok()).as_bytes()));
     let sig = scenario_sig(sc) ^ digest(desc.as_bytes());
-    ctx.st.eval(sig, fired.changed || matches!(fault, HostFault::Twin(..) | HostFault::SelectorTwin { .. }));
+    ctx.st.eval(sig, fired.changed || matches!(fault, HostFault::Twin(..) | HostFault::SelectorTwin { .. } | HostFault::UnwiredWitnesses { .. }));
     match (verdict, res) {
         (None, Err(e)) => {
             // synthesis itself returned an error; the prover must report it
@@ -234,6 +239,15 @@ pub fn selector_twin(f: &mut crate::prng::Rng, sc: &Scenario) -> Option<HostFaul
 }
 
 pub fn gen_fault(f: &mut crate::prng::Rng, sc: &Scenario, dep: &Deployment) -> HostFault {
+    if f.chance(1, 24) {
+        // a few, four per row, or many more witnesses than the rows could ever wire
+        let extra = *f.pick(&[1usize, 4 * sc.constraints + 3, 8 * sc.constraints + 50, 1000]);
+        let mut p = (*sc.prog).clone();
+        for _ in 0..extra {
+            p.ops.push(crate::program::Op::Input(crate::program::Kind::Any));
+        }
+        return HostFault::UnwiredWitnesses { prog: std::sync::Arc::new(p), extra };
+    }
     if f.chance(1, 8) {
         if let Some(t) = selector_twin(f, sc) {
             return t;
